@@ -489,7 +489,7 @@ func runC04(c *Ctx) {
 		j := &cmpJudge{ctx: c, sh: sh}
 		// the full (nx, ny, gap) grid is split over the shards; each shard walks
 		// its share, repeated reps times with fresh randomness
-		reps := c.N(1, 12)
+		reps := c.N(3, 24)
 		for rep := 0; rep < reps; rep++ {
 			idx := 0
 			for nx := 1; nx <= 35; nx++ {
@@ -508,7 +508,7 @@ func runC04(c *Ctx) {
 	})
 	c.Parallel("mixed", ref.NearestEven, func(sh *mon.Shard, r *gen.RNG) {
 		j := &cmpJudge{ctx: c, sh: sh}
-		n := c.N(40000, 500000)
+		n := c.N(100000, 800000)
 		for i := 0; i < n; i++ {
 			switch i % 8 {
 			case 0:
